@@ -22,6 +22,7 @@ func init() {
 func runC16(c *Ctx, r *Report) {
 	defer c16R5(c, r, "C16.R5")
 	defer c16Store(c, r, "C16.R6")
+	defer c16Resolve(c, r, "C16.R8")
 	defer c15R14(c, r, "C16.R7") // whether credentials are configured is decided from what the Caddyfile option stored: it must store every pair it was given
 	r.rule("C16.R1", "permit rule per command-list scenario", 8)
 	r.rule("C16.R2", "authentication methods per credential scenario", 8)
@@ -404,5 +405,109 @@ func c16Store(c *Ctx, r *Report, rule string) {
 	}
 	if n == 0 {
 		r.bad(rule, "modules/l4socks", "credential store installed", "-", "no store is assigned to UserPassAuthenticator.Credentials")
+	}
+}
+
+// c16Resolve: which accounts exist. Provision is evaluated with a concrete credential table whose entries use
+// placeholders - {"{env.U}": "{env.P}", "bob": "pw2", "{env.NONE}": "x"} with {env.U} -> alice, {env.P} -> pw1,
+// {env.NONE} -> "" - and the map it hands to the authenticator must be exactly {alice: pw1, bob: pw2}: every
+// account under its resolved name with the resolved password of the same entry, no account for a name that
+// resolves to nothing.
+func c16Resolve(c *Ctx, r *Report, rule string) {
+	r.rule(rule, "accounts after placeholder resolution (evaluation of Provision on a concrete credential table with placeholders in names and passwords): the authenticator's map holds exactly resolved name -> resolved password of the same entry, and no account for a name resolving to the empty string", 1)
+	fnName := "modules/l4socks.(*Socks5Handler).Provision"
+	fn := c.Fn(fnName)
+	if fn == nil {
+		r.bad(rule, fnName, "exists", "-", "function not found")
+		return
+	}
+	resolve := map[string]string{"{env.U}": "alice", "{env.P}": "pw1", "{env.NONE}": ""}
+	tables := []map[string]string{
+		{"{env.U}": "{env.P}", "bob": "pw2", "{env.NONE}": "x"},
+		{"{env.U}": "secret"},
+		{"carol": "{env.P}"},
+	}
+	for ti, cfg := range tables {
+		want := map[string]string{}
+		for k, v := range cfg {
+			rk, rv := k, v
+			if x, ok := resolve[k]; ok {
+				rk = x
+			}
+			if x, ok := resolve[v]; ok {
+				rv = x
+			}
+			if rk != "" {
+				want[rk] = rv
+			}
+		}
+		name := fmt.Sprintf("table#%d %v", ti+1, cfg)
+		ms := map[string]SV{}
+		for k, v := range cfg {
+			ms[k] = symStr(v)
+		}
+		ln := symInt(int64(len(cfg)))
+		sc := &Scenario{Name: name, MaxVisit: 12, MaxPaths: 2000,
+			Params: map[string]SV{"recv": symRef("h", false), "p0": symOpaque("ctx")},
+			Heap: map[string]SV{"h.Commands": symSlice("cmds", 0), "h.Credentials": {K: "ref", Known: true, Desc: "h.Credentials", Len: &ln},
+				"smap:h.Credentials": {K: "mapval", MS: ms}},
+		}
+		sc.Call = func(callee string, args []SV, ev *symEval, st *symState) (SV, bool) {
+			switch {
+			case strings.HasSuffix(callee, "Replacer).ReplaceAll"):
+				if args[1].K == "str" && args[1].Known {
+					if x, ok := resolve[args[1].S]; ok {
+						return symStr(x), true
+					}
+					return args[1], true
+				}
+			case callee == "fmt.Errorf":
+				return SV{K: "ref", Known: true, Desc: "provisionError"}, true
+			case strings.HasSuffix(callee, "caddy/v2.NewReplacer"), strings.HasSuffix(callee, ".Logger"), callee == "net.ParseIP":
+				return symOpaque(shortCallee(callee)), true
+			case strings.HasPrefix(callee, "github.com/things-go/go-socks5."):
+				return SV{K: "ref", Known: true, Desc: shortCallee(callee)}, true
+			}
+			return SV{}, false
+		}
+		paths, err := evalPaths(fn, sc)
+		if err != nil || len(paths) == 0 {
+			r.bad(rule, fnName, name, c.pos(fn.Pos()), fmt.Sprintf("undecided: %v", err))
+			continue
+		}
+		var problems []string
+		for _, p := range paths {
+			if p.Outcome != "return" || len(p.Ret) != 1 || !(p.Ret[0].Known && p.Ret[0].Nil) {
+				problems = append(problems, "provisioning of a valid credential table does not succeed ("+p.Outcome+")")
+				continue
+			}
+			var maps []string
+			for k, v := range p.Heap {
+				if strings.HasPrefix(k, "smap:") && k != "smap:h.Credentials" && v.MS != nil {
+					maps = append(maps, k)
+				}
+			}
+			sort.Strings(maps)
+			if len(maps) != 1 {
+				problems = append(problems, fmt.Sprintf("undecided: %d maps are built while provisioning, expected the one handed to the authenticator", len(maps)))
+				continue
+			}
+			got := map[string]string{}
+			undecided := false
+			for k, v := range p.Heap[maps[0]].MS {
+				if v.K != "str" || !v.Known {
+					undecided = true
+				}
+				got[k] = v.S
+			}
+			if undecided {
+				problems = append(problems, "undecided: a stored password is not a known string")
+				continue
+			}
+			if fmt.Sprint(got) != fmt.Sprint(want) {
+				problems = append(problems, fmt.Sprintf("the accounts are %v, the configuration resolves to %v", got, want))
+			}
+		}
+		r.check(len(problems) == 0, rule, fnName, name, c.pos(fn.Pos()), fmt.Sprintf("accounts %v (%d path(s))", want, len(paths)), strings.Join(dedup(problems), "; "))
 	}
 }
